@@ -114,6 +114,59 @@ func ruleLoopDep(c *Ctx, rule, short, name, callee string) {
 	visit(fd.Body, nil, fd.Body)
 	if n == 0 {
 		c.und(rule, fn+"/"+callee, fd.Pos(), "no "+callee+" call inside a loop")
+		return
+	}
+	// span-invariant: the alignment's span must be taken before the loop moves
+	// the rows; a Start/End/Len call on the receiver inside the loop sees rows
+	// that earlier iterations have already re-offset.
+	var recv types.Object
+	if fd.Recv != nil && len(fd.Recv.List) == 1 && len(fd.Recv.List[0].Names) == 1 {
+		recv = p.TypesInfo.Defs[fd.Recv.List[0].Names[0]]
+	}
+	var badCall *ast.CallExpr
+	ast.Inspect(fd.Body, func(x ast.Node) bool {
+		var body *ast.BlockStmt
+		switch s := x.(type) {
+		case *ast.RangeStmt:
+			body = s.Body
+		case *ast.ForStmt:
+			body = s.Body
+		default:
+			return true
+		}
+		hasCallee := false
+		ast.Inspect(body, func(y ast.Node) bool {
+			if call, ok := y.(*ast.CallExpr); ok {
+				if sel, ok := call.Fun.(*ast.SelectorExpr); ok && sel.Sel.Name == callee {
+					hasCallee = true
+				}
+			}
+			return true
+		})
+		if !hasCallee {
+			return true
+		}
+		ast.Inspect(body, func(y ast.Node) bool {
+			call, ok := y.(*ast.CallExpr)
+			if !ok {
+				return true
+			}
+			sel, ok := call.Fun.(*ast.SelectorExpr)
+			if !ok || (sel.Sel.Name != "Start" && sel.Sel.Name != "End" && sel.Sel.Name != "Len") {
+				return true
+			}
+			if id, ok := unparen(sel.X).(*ast.Ident); ok && recv != nil && p.TypesInfo.ObjectOf(id) == recv {
+				badCall = call
+			}
+			return true
+		})
+		return true
+	})
+	key := fn + "/span-taken-before-loop"
+	if badCall != nil {
+		c.bad(rule, key, badCall.Pos(), "the alignment's span ("+exprStr(c.Fset, badCall)+") is recomputed inside the loop that re-offsets the rows: once an earlier row has moved, later rows are mirrored about a different span, so ragged alignments without a row covering the whole span are not mirrored and applying the operation twice does not restore them")
+	} else {
+		c.ok(rule, key, fd.Pos(), "no Start/End/Len of the alignment is evaluated inside the row loop")
 	}
 }
 
